@@ -140,6 +140,16 @@ class _VarId:
             raise Unsupported(f'substring test for {item!r}')
         return self.owner._cur.SUB(self.i, AS_TYPES.index(item))
 
+    def sym_method(self, I, name, a, k):
+        if name in ('startswith', 'endswith'):
+            # the id begins / ends with these letters: again weaker than "is a token of the id" (SECT-21 starts with SE)
+            items = a[0] if isinstance(a[0], (tuple, list)) else (a[0],)
+            if not all(x in AS_TYPES for x in items):
+                raise Unsupported(f'{name} test for {a[0]!r}')
+            rel = z3.Function(f'id_{name}', I_, I_, B_)
+            return z3.Or(*[rel(self.i, AS_TYPES.index(x)) for x in items])
+        raise Unsupported(f'variant id .{name}')
+
 
 @register
 class IsAlternativeSplicing(Contract):
